@@ -1,9 +1,42 @@
 HOOK_COMMITS = ["9b11c26"]
-NOTES = "Technique family: machine-checked proof in Lean 4. See DESIGN.md. Every check rebuilds from /repo's working tree: translator (tools/xlate) regenerates PQ/Gen, the harness is rebuilt with -tags verif, theorems are re-checked by `lake build`, then the correspondence run compares model and implementation."
+NOTES = ("Technique family: machine-checked proof in Lean 4. See DESIGN.md. Every check rebuilds from /repo's working tree: "
+         "the translator (tools/xlate) regenerates PQ/Gen, parquetgen is rebuilt and re-run on the zoo structs, the harness is rebuilt with -tags verif, "
+         "the property's theorems are re-checked by `lake build` and audited with `#print axioms`, then the correspondence run compares the executable Lean model "
+         "and the implementation on generated inputs, and the property's executable oracle is evaluated on the implementation's behaviour. "
+         "Genuine defects repaired by fix: commits in /repo are listed in known_findings.json (status fixed).")
 NA = {}
 
+PROOF_NOTE = ("Trusted: Lean kernel (axioms propext, Quot.sound, Classical.choice only; audited every run), the statements and model definitions, "
+              "the Go harness (reflect-based record/projection conversion), the Python orchestrator, external libraries (snappy, gzip, thrift runtime) as parameters. "
+              "The model-implementation link is exact differential execution on generated inputs (sampled), except translated parts.")
+
 add("C17", "proof",
-    "Theorems over all BitVec 8 inputs (all value groups and all byte groups of widths 1-4) about definitions regenerated from internal/bitpack/bitpack.go and from cmd/bitpackgen's fresh output on every run: unpack∘pack = mask, pack∘unpack = id, packed bit k = bit (k mod w) of value (k div w). The quantifier of the property is covered completely by the theorems; the translator is validated each run by exact comparison with bitpack.Pack/Unpack.",
-    "Trusted: Lean kernel (axioms propext, Quot.sound), tools/xlate (go/ast translator, ~300 lines), the verif hook VerifBitPack/VerifBitUnpack, the statement of streamBit/specBit.",
+    "Theorems over all BitVec 8 inputs (all value groups and all byte groups of widths 1-4) about definitions regenerated from internal/bitpack/bitpack.go and from cmd/bitpackgen's fresh output on every run: unpack∘pack = mask, pack∘unpack = id, packed bit k = bit (k mod w) of value (k div w); Nat-level corollaries used by the RLE proofs (pack = arithmetic LSB-first layout). The quantifier of the property is covered completely by the theorems; the translator is validated each run by exact comparison with bitpack.Pack/Unpack.",
+    "Trusted: Lean kernel (axioms propext, Quot.sound, Classical.choice), tools/xlate (go/ast translator), the verif hook VerifBitPack/VerifBitUnpack, the statement of streamBit/specBit.",
     "Lean 4 theorems by bit extensionality over a model translated from the Go source on every run",
     "DESIGN.md §6 C17")
+
+add("C07", "proof",
+    "Theorems for every width 1-4 and every level sequence (unbounded length up to the int32 prefix guard): the encoder model's output is le32 len ++ a serialisation of well-formed runs whose values are the input plus <8 zeros (invariant over the encoder state machine), the specification decoder inverts it, and the implementation-decoder model accepts every well-formed run list (any mix of run kinds, >63 groups, multi-byte headers) consuming exactly the stream; writeBuffer abstraction. The encoder/decoder models are tied to internal/rle by exact comparison (bytes, values, consumed count, err/panic) on exhaustive short sequences, boundary-structured sequences, foreign well-formed encodings and malformed streams; thresholds 8/63 are extracted from the source into the model on every run.",
+    PROOF_NOTE, "Lean 4 invariant proof of a hand-written model + exact differential correspondence", "DESIGN.md §6 C07")
+
+add("C12", "proof",
+    "Theorems for every page (every list of striped entries) and every type: null_count = number of entries without a value; reported min/max bound every non-null non-NaN value in the type's order (signed, unsigned, IEEE-754 on bit patterns, bytewise); min/max absent iff no non-null value (optional kinds, strings); NaN never enters. The accumulator model is tied to the generated stats code by exact equality of whole files (page headers carry the Statistics) on boundary-value pages of all 8 types x required/optional/repeated; the statement itself is also evaluated on every page of the implementation's files after independent decoding.",
+    PROOF_NOTE, "Lean 4 fold-invariant proofs + exact differential correspondence + executable oracle", "DESIGN.md §6 C12")
+
+add("C03", "proof",
+    "Theorems for every repetition-type list and every value: assemble∘stripe = id (a reader that knows only the specification reassembles the record), levels bounded by the column maxima, value present iff def = maxDef, record boundaries are exactly rep = 0, striping injective, level bit width sufficient and minimal. The reference striping is compared with the rep/def/value sections of every page of the implementation's files, decoded by the Lean specification decoder (not the library), for structurally enumerated records of five structs; projections are computed by reflection independently of generated code.",
+    PROOF_NOTE, "Lean 4 structural-induction proofs of the reference striping + spec-level correspondence", "DESIGN.md §6 C03")
+
+add("C06", "proof",
+    "Writer state machine (Add/Write/Close, page chain, row-group accounting, footer) as an executable Lean model whose sink bytes and sink-call segmentation equal the generated writer's on all histories up to a length bound x page sizes x codecs; refinement theorems over all histories (chain = chunks of max, closed row groups = non-empty batches, empty Write inert, pending records dropped, offsets truthful) as listed in evidence; the property is also evaluated directly on the implementation: independent parse + read-back vs the list-of-batches model.",
+    PROOF_NOTE + " Theorems carried so far are listed in the evidence file under coverage.axioms; clauses not yet carried by a theorem are decided by the correspondence and the oracle only.",
+    "Lean 4 refinement proofs of a hand-written state machine + exhaustive history enumeration against the implementation", "DESIGN.md §6 C06")
+
+add("C02", "proof",
+    "Independent parser/validator PQ.parseFile written from the specification (magic, footer, thrift, schema tree, offsets, sizes, counts, codec, page record limits and boundaries, exact section lengths) is evaluated on every file the implementation writes for five structs (incl. nesting 3 deep and same-named groups), and the model writer's bytes equal the implementation's exactly; layout theorems (offsets truthful, sink-call shape) and page round-trip lemmas are proved over the model. The full statement validate(parseFile(run ops)) for all ops is not yet one theorem (partial): it is composed of the proved layer lemmas plus the correspondence.",
+    PROOF_NOTE, "Lean 4 layer theorems + independent validator as executable oracle + exact byte correspondence", "DESIGN.md §6 C02")
+
+add("C01", "proof",
+    "Round trip decomposed into proved layers over the model (bit packing, RLE encode/decode, Dremel stripe/assemble, thrift encode/decode, PLAIN, page payload) and an executable writer+reader model whose bytes and read results equal the implementation's exactly on structurally enumerated and boundary-valued records of five structs, partitions around page boundaries, page sizes and three codecs; the implementation's read-back is compared with the input. The whole-file composition theorem is not yet a single theorem (partial); the two aliasing clauses are runtime facts explored by the harness only (mutation after Add, scanned records re-checked after later reads).",
+    PROOF_NOTE, "Lean 4 layer theorems + exact differential correspondence of writer and reader models", "DESIGN.md §6 C01")
